@@ -88,7 +88,8 @@ KindKeys(k) ==
                         "n_rdm", "n_pattern", "models"}
 KindTable == [k \in Kinds |-> KindKeys(k)]
 
-Cells(kk, o) == {<<key, o>> : key \in KindKeys(kk[o]) \cup {"own"}}
+OwnKey(o) == "own" \o ToString(o)      \* the object-specific nested keys (descriptor names) differ per object
+Cells(kk, o) == {<<key, o>> : key \in KindKeys(kk[o]) \cup {OwnKey(o)}}
 KeysOf(cells) == {c[1] : c \in cells}
 
 Absent == [ex |-> FALSE, fmt |-> "", cells |-> {}]
